@@ -26,9 +26,17 @@ Print Assumptions C03_same_lengths_same_request.
        signatures; together with (1): re-targeting needs the names to be rewritten, which
        changes the signed bytes *)
 Theorem C03_retarget_rejected : forall i,
-  (nth 1 (a_args i) [] <> a_cc i \/ nth 2 (a_args i) [] <> a_ch i) -> forall o, auth i <> Ok o.
+  (nth 1 (a_args i) [] <> a_cc i \/ nth 2 (a_args i) [] <> a_ch i \/
+   exists r, a_routed i = Some r /\ nth 1 (a_args i) [] <> r) -> forall o, auth i <> Ok o.
 Proof. exact retarget_rejected. Qed.
 Print Assumptions C03_retarget_rejected.
+(* ... and "this chaincode" is the chaincode the peer routed the proposal to (the name in the header extension), not the
+   name the submitter wrote into the proposal payload: a request accepted by a chaincode that was reached through a
+   peer names that chaincode (until the repair F23 only the payload's name was compared) *)
+Theorem C03_accepted_names_routed : forall i o r,
+  auth i = Ok o -> a_routed i = Some r -> nth 1 (a_args i) [] = r.
+Proof. exact accepted_names_routed. Qed.
+Print Assumptions C03_accepted_names_routed.
 
 (* (4) REFUTED as stated in full: the signed bytes are a plain concatenation, so moving bytes
        across the boundary of two neighbouring arguments keeps every signature valid.  This
@@ -42,7 +50,7 @@ Proof.
   set (base := [[]; cc; cc; [49; 48]%N; [48; 97]%N; [49; 55]%N; k1]).
   set (base' := [[]; cc; cc; [49; 48; 48]%N; [97]%N; [49; 55]%N; k1]).
   set (msg := fn ++ concat base).
-  set (mk := fun b => AuthIn 3 fn (b ++ [[115]%N]) cc cc (AclOk 9 false false 1 [0%N]) [(k1, KI 1 0 false)] [SigBy 1 0 msg]).
+  set (mk := fun b => AuthIn 3 fn (b ++ [[115]%N]) cc cc (AclOk 9 false false 1 [0%N]) [(k1, KI 1 0 false)] [SigBy 1 0 msg] (Some cc)).
   exists (mk base), (mk base'). vm_compute. eexists. eexists. repeat split; try reflexivity; discriminate.
 Qed.
 Print Assumptions C03_boundary_shift_refuted.
